@@ -20,8 +20,7 @@ func LineNumber(source string, head int) (int, int) {
 	var line, col int
 	for i, char := range source {
 		col += 1
-		// TODO: Check bounds
-		if char == '-' && source[i+1] == '-' {
+		if char == '-' && i+1 < len(source) && source[i+1] == '-' {
 			comment = true
 		}
 		if char == '\n' {
